@@ -109,7 +109,8 @@ Record desc := mkDesc { d_mt : mt; d_digest : N; d_size : N; d_toc : N; d_usize 
 
 Record st := mkSt { sstore : store; smap : tocmap }.
 
-Inductive op := Uncompress (i : nat) | Commit (i : nat) | Record (i : nat).
+(* Finalize refok: one call of the finalize callback of an external-TOC converter; refok = the target reference parses *)
+Inductive op := Uncompress (i : nat) | Commit (i : nat) | Record (i : nat) | Finalize (refok : bool).
 
 Section Conv.
   Context {blob : Type}.
@@ -178,6 +179,7 @@ Section Conv.
             end
         | None => s
         end
+    | Finalize _ => s      (* finalizeFunc only READS esgzDigest2TOC (under the mutex): failed or not, it changes nothing *)
     end.
 
   Definition exec (k : kind) (ls : list layer) (s : st) (os : list op) : st := fold_left (step k ls) os s.
@@ -327,6 +329,25 @@ Fixpoint fetch (mf : list (N * (N * N))) (d : N) : option (N * N) :=
   | (l, t) :: r => if N.eqb l d then Some t else fetch r d
   end.
 
+(* what the finalize calls of a schedule return, in order: finalizeFunc builds the manifest from the map as it is at that
+   moment (createManifest), then getTOCReference(ref) fails for an unparsable reference -> (nil, err) *)
+Section Fin.
+  Context {blob : Type}.
+  Variable H : blob -> N.
+  Variable len : blob -> N.
+  Variable payload : blob -> blob.
+  Variable etoc : blob -> N * N.
+  Fixpoint fin_outputs (k : kind) (ls : list layer) (s : st) (os : list op) : list (option (list (N * (N * N)))) :=
+    match os with
+    | [] => []
+    | o :: t =>
+        match o with
+        | Finalize refok => [if refok then Some (finalize (smap s)) else None]
+        | _ => []
+        end ++ fin_outputs k ls (step H len payload etoc k ls s o) t
+    end.
+End Fin.
+
 (* the manifest is ordered by TOC digest (what sort.Slice establishes) *)
 Fixpoint toc_sorted (l : list (N * (N * N))) : Prop :=
   match l with
@@ -351,7 +372,9 @@ Record clayer := mkLayer {
   cl_mt : mt; cl_srcdigest : N; cl_srclabel : N; cl_src : cblob; cl_retry : bool; cl_ok : bool; cl_blob : cblob; cl_obs : obs;
   cl_leftover : N; cl_ingest_after : N }.
 
-Record case := mkCase { c_kind : kind; c_layers : list clayer; c_manifest : option (list (N * (N * N))) }.
+(* c_fins: the finalize calls of the case in order: (number of layers converted before the call, (reference parses?,
+   observed manifest entries or None for an error)); layers after the last call are converted at the end *)
+Record case := mkCase { c_kind : kind; c_layers : list clayer; c_fins : list (nat * (bool * option (list (N * (N * N))))) }.
 
 Definition to_layer (c : clayer) : layer := mkLay (cl_mt c) (cl_src c) (if cl_ok c then Some (cl_blob c) else None).
 
@@ -366,10 +389,18 @@ Fixpoint retry_ops (ls : list clayer) (i : nat) : list op :=
   | c :: t => (if cl_retry c then layer_ops i else []) ++ retry_ops t (S i)
   end.
 
+(* the case's program: history (retries), then per finalize call the layers up to its position followed by the call,
+   then the remaining layers *)
+Fixpoint phase_ops (n done : nat) (fins : list (nat * (bool * option (list (N * (N * N)))))) : list op :=
+  match fins with
+  | [] => seq_ops (n - done) done
+  | (upto, (refok, _)) :: t => seq_ops (upto - done) done ++ Finalize refok :: phase_ops n (Nat.max done upto) t
+  end.
+Definition case_ops (c : case) : list op :=
+  retry_ops (c_layers c) 0 ++ phase_ops (length (c_layers c)) 0 (c_fins c).
+Definition case_init (c : case) : st := mkSt (init_store (c_layers c)) [].
 Definition run_case (c : case) : st :=
-  let ls := map to_layer (c_layers c) in
-  exec cH cLen cPayload cEtoc (c_kind c) ls (mkSt (init_store (c_layers c)) [])
-       (retry_ops (c_layers c) 0 ++ seq_ops (length ls) 0).
+  exec cH cLen cPayload cEtoc (c_kind c) (map to_layer (c_layers c)) (case_init c) (case_ops c).
 
 Definition optN_eqb (a b : option N) : bool :=
   match a, b with Some x, Some y => N.eqb x y | None, None => true | _, _ => false end.
@@ -396,13 +427,20 @@ Fixpoint ents_eqb (a b : list (N * (N * N))) : bool :=
   | _, _ => false
   end.
 
+Fixpoint fins_eqb (a b : list (option (list (N * (N * N))))) : bool :=
+  match a, b with
+  | [], [] => true
+  | None :: a', None :: b' => fins_eqb a' b'
+  | Some x :: a', Some y :: b' => ents_eqb x y && fins_eqb a' b'
+  | _, _ => false
+  end.
+
 Definition case_ok (c : case) : bool :=
   let fin := run_case c in
   forallb (obs_ok (c_kind c) fin) (c_layers c)
-  && match c_manifest c with
-     | Some mf => is_ext (c_kind c) && ents_eqb mf (finalize (smap fin))
-     | None => negb (is_ext (c_kind c))
-     end.
+  && (is_ext (c_kind c) || match c_fins c with [] => true | _ => false end)
+  && fins_eqb (map (fun f => snd (snd f)) (c_fins c))
+              (fin_outputs cH cLen cPayload cEtoc (c_kind c) (map to_layer (c_layers c)) (case_init c) (case_ops c)).
 
 Fixpoint mismatches_from (n : nat) (cs : list case) : list nat :=
   match cs with
